@@ -173,6 +173,7 @@ class Variant:
     rename_all: Optional[str] = None
     skip: bool = False
     untagged: bool = False
+    as_ty: Optional["Ty"] = None    # variant-level `as` (ts-only corpora): the variant is bound as a newtype variant of that type
     docs: List[str] = dfield(default_factory=list)
     extra_attrs: List[str] = dfield(default_factory=list)
     tags: List[str] = dfield(default_factory=list)
@@ -236,7 +237,11 @@ class Item:
         """fields that reach the binding (fields of skipped variants do not)"""
         if self.kind == "enum":
             for v in self.variants:
-                if not v.skip:
+                if v.skip:
+                    continue
+                if v.as_ty is not None:
+                    yield Field(None, v.as_ty)      # the variant's own fields play no part in the binding
+                else:
                     yield from v.fields
         else:
             yield from self.fields
@@ -247,6 +252,9 @@ class Item:
             out.extend(f.ty.users())
             if f.as_ty is not None:
                 out.extend(f.as_ty.users())
+        for v in self.variants:
+            if v.as_ty is not None:
+                out.extend(v.as_ty.users())
         for t in self.param_default_tys.values():
             out.extend(t.users())
         return out
@@ -504,6 +512,8 @@ def _emit_item(it: Item, spell=None, derives=None, tyspell=None) -> str:
                 lines.append(f'    #[{spell("skip")}(skip)]')
             if v.untagged:
                 lines.append(f'    #[{spell("untagged")}(untagged)]')
+            if v.as_ty is not None:
+                lines.append(f'    #[ts(as = {rs_str(v.as_ty.rs())})]')
             for a in v.extra_attrs:
                 lines.append("    " + a)
             if v.kind == "unit":
@@ -762,6 +772,21 @@ class Gen:
         f.type_ = None
         f.inline = self.p.inline and self.r.random() < 0.5
 
+    def maybe_variant_as(self, v):
+        """ts-only corpora: a whole variant is bound `as` another type of the corpus, which nothing else may reach"""
+        if not (self.p.ts_only and self.p.placements) or v.kind == "unit" or v.skip or v.rename_all or self.r.random() >= 0.12:
+            return
+        cands = [i for i in self.items if not i.params and not i.recursive]
+        if not cands:
+            return
+        other = Ty("user", item=self.r.choice(cands))
+        v.as_ty = self.r.choice([other, other, Ty("vec", args=[other]), Ty("opt", args=[other])])
+        # what the variant holds in Rust is irrelevant to the binding: something without a binding of its own need not exist,
+        # so keep plain leaves (their attributes would still be parsed)
+        for f in v.fields:
+            f.ty, f.inline, f.flatten, f.skip, f.optional, f.as_, f.as_ty, f.type_, f.default = self.leaf(), False, False, False, None, None, None, None, False
+        v.tags.append("v:as>user")
+
     def skip_tuple_fields(self, fields, tags):
         """now and then some, or all, fields of a tuple are skipped (serde then emits a shorter sequence, `[]` for none left)"""
         if len(fields) < 2 or self.r.random() >= self.p.p_attr * 0.2:
@@ -917,6 +942,7 @@ class Gen:
                 v.rename = self.wire_rename()
             if self.r.random() < pa * 0.15 and k > 1:
                 v.skip = True
+            self.maybe_variant_as(v)
             it.variants.append(v)
         if all(v.skip for v in it.variants):
             it.variants[0].skip = False
